@@ -67,6 +67,17 @@ def run_c05(ck):
             s = genexpr.gen_str(rng)
             t = s if rng.random() < 0.4 else {"k": "call", "f": rng.choice(genexpr.ENCODINGS + ["strlen", "sizeof"]), "args": [s]}
             cases.append(("expr", t, "data" if rng.random() < 0.7 else "const", genexpr.render(t)))
+    # strings used as numbers (big-endian bytes of the encoding), incl. first bytes >= 0x80
+    for i in range(300 if quick else 3000):
+        pieces = rng.choice([[233], [223], [65], [8364], [97, 98], [233, 97], [127], [128512], [255]])
+        sv = {"k": "str", "src": pieces}
+        enc = rng.choice(["utf8", "utf8", "utf16be", "utf16le", "ascii", "utf32le"])
+        sx = sv if enc == "utf8" and rng.random() < 0.5 else {"k": "call", "f": enc, "args": [sv]}
+        t = {"k": "bin", "op": rng.choice(["add", "eq", "lt", "and", "shr", "concat", "sub"]), "l": sx,
+             "r": rng.choice([{"k": "num", "text": ["0"]}, {"k": "num", "text": list("0xc3a9")}, {"k": "num", "text": list("0x80")}])}
+        if rng.random() < 0.5:
+            t["l"], t["r"] = t["r"], t["l"]
+        cases.append(("expr", t, "const", genexpr.render(t)))
     jobs = []
     for kind, payload, mode, text in cases:
         src = ("x = %s\n" % text) if mode == "const" else ("#d %s\n" % text)
